@@ -73,6 +73,43 @@ def c09_2(ctx):
     _refcheck(ctx, B32, "subkey_secret_exponent_chain_code_pair", "ckd_priv", "ckd-priv")
     _refcheck(ctx, B32, "subkey_public_pair_chain_code_pair", "ckd_pub", "ckd-pub")
     _refcheck(ctx, B32N, "BIP32Node.from_master_secret", "n_from_master_secret", "master-key")
+    # ser256(k): the parent key enters the hardened HMAC message as exactly 32 bytes, whatever its value (a serialisation sized by
+    # the value drops the leading zero bytes of 1 key in 256 and derives a different subtree)
+    f = ctx.func(B32, "subkey_secret_exponent_chain_code_pair")
+    kp = f.params()[1]
+    seen = 0
+    node = sym.expanded(ctx, f)
+    sm = sym.summarize(node, sym.Canon(sym.make_const_of(ctx, f), None, None))
+    msgs = []
+    for it in sm.items:
+        if it.kind == "loop-init" and " starts as " in it.head:
+            try:
+                msgs.append(ast.parse(it.head.split(" starts as ", 1)[1], mode="eval").body)
+            except SyntaxError:
+                continue
+    for e in sym.calls_matching(sym.walk(ctx, f), lambda t: t in ("hmac.HMAC", "hmac.new", "HMAC", "hmac.digest")):
+        m_ = next((k.value for k in e.call.keywords if k.arg == "msg"), e.call.args[1] if len(e.call.args) > 1 else None)
+        if m_ is not None:
+            msgs.append(m_)
+    for msg in msgs:
+        pieces = df.flatten_add(msg)
+        if not (pieces and isinstance(pieces[0], ast.Constant) and pieces[0].value == b"\x00"):
+            continue                        # the hardened message starts with the 0x00 pad byte
+        for piece in pieces[1:]:
+            if not any(isinstance(x, ast.Name) and x.id == kp for x in ast.walk(piece)):
+                continue
+            seen += 1
+            fn_t = norm(piece.func) if isinstance(piece, ast.Call) else ""
+            if fn_t.endswith("to_bytes_32"):
+                ctx.ok("ser256-fixed-width", sample={"key_serialisation": norm(piece)[:60]})
+            elif fn_t.endswith(".to_bytes"):
+                n_ = df.const_int(piece.args[0]) if piece.args else next((df.const_int(k.value) for k in piece.keywords if k.arg == "length"), None)
+                ctx.check(n_ == 32, "ser256-fixed-width", ctx.where(f), "CKDpriv (hardened) serialises the parent key as `%s`: BIP32's ser256 is exactly 32 bytes; a width taken from the value drops leading zero bytes and the hardened children of such keys differ from BIP32" % norm(piece)[:100],
+                          sample={"key_serialisation": norm(piece)[:60]})
+            else:
+                ctx.undecided("ser256-fixed-width", ctx.where(f), "the parent key enters the hardened HMAC message as `%s`; this rule reads to_bytes_32 / int.to_bytes only" % norm(piece)[:80])
+    if seen == 0:
+        ctx.undecided("ser256-fixed-width", ctx.where(f), "no HMAC message containing the serialised parent key found in subkey_secret_exponent_chain_code_pair")
 
 
 # ------------------------------------------------------------------ C09.3
